@@ -8,5 +8,5 @@ MNext == DNext /\ LET r15 == MP!Mon15Step(mon, evt')  r10 == MP!Mon10Step(mon, e
 MSpec == MInit /\ [][MNext]_<<vars, depth, mon, viol>>
 C15 == viol.c15 = {}
 C10 == viol.c10 = {}
-MView == <<tstate, issued, pending, depth, mon, viol>>
+MView == <<tstate, issued, pending, pmsg, depth, mon, viol>>
 =============================================================================
